@@ -358,6 +358,31 @@ fn eval_det(t: &mut Toks) -> R<String> {
             let b = t.geom()?;
             twice(&|h| h.str(&format!("{:?}", a.relate(&b))))
         }
+        "prelseq" => {
+            // ONE PreparedGeometry answers a sequence of relate calls (as left and as right operand), then the same
+            // sequence backwards; every answer must equal a fresh plain relate of the same pair: earlier calls on
+            // the cached graph must not influence later ones
+            let m = t.usize()?;
+            let p = t.geom()?;
+            let mut qs = vec![];
+            for _ in 0..m {
+                qs.push(t.geom()?);
+            }
+            let a = once(&|h| {
+                let prep = geo::PreparedGeometry::from(&p);
+                for q in qs.iter().chain(qs.iter().rev()) {
+                    h.str(&format!("{:?}", prep.relate(q)));
+                    h.str(&format!("{:?}", q.relate(&prep)));
+                }
+            });
+            let b = once(&|h| {
+                for q in qs.iter().chain(qs.iter().rev()) {
+                    h.str(&format!("{:?}", p.relate(q)));
+                    h.str(&format!("{:?}", q.relate(&p)));
+                }
+            });
+            format!("{} {}", a, b)
+        }
         _ => return Err(format!("unknown det kind {}", kind)),
     })
 }
@@ -784,6 +809,25 @@ fn gen_case(rng: &mut Rng, index: u64) -> String {
                 }
             };
             format!("C20.det pariter {}", proto::geom(&g))
+        }
+        _ if rng.chance(1, 2) => {
+            // a prepared polygon asked about geometries inside it, overlapping it, around it and apart from it
+            let p = if rng.chance(2, 3) { Geometry::Polygon(gen_polygon(rng, k)) } else { gen_valid(rng, k) };
+            let m = rng.range(2, 5) as usize;
+            let mut s = format!("C20.det prelseq {} {}", m, proto::geom(&p));
+            for _ in 0..m {
+                let q = match rng.below(4) {
+                    0 => Geometry::Polygon(gen_polygon(rng, k)),
+                    1 => {
+                        // a rectangle strictly containing everything on the grid
+                        Geometry::Polygon(Rect::new(Coord { x: -1.0 - rng.range(0, 3) as f64, y: -2.0 }, Coord { x: k as f64 + 2.0, y: k as f64 + 1.0 + rng.range(0, 3) as f64 }).to_polygon())
+                    }
+                    _ => gen_valid(rng, k),
+                };
+                s.push(' ');
+                s.push_str(&proto::geom(&q));
+            }
+            s
         }
         _ => {
             let a = gen_valid(rng, k);
